@@ -1,7 +1,7 @@
 (* C14 - Module version selection is minimal, sufficient, and order/schedule
    independent; version comparison is a total order agreeing with SemVer 2.0.
    This file contains only statements, closed by [exact], and Print Assumptions. *)
-From Verif Require Import Base.Order Semver.Model Semver.Spec Semver.Proofs MVS.Model MVS.Proofs MVS.Examples.
+From Verif Require Import Base.Order Semver.Model Semver.Spec Semver.Proofs Semver.Canonical MVS.Model MVS.Proofs MVS.Examples.
 From Coq Require Import List NArith.
 Import ListNotations.
 
@@ -98,6 +98,36 @@ Print Assumptions C14_selected_sufficient_and_minimal.
 Print Assumptions C14_selected_is_max.
 Print Assumptions C14_schedule_independent.
 Print Assumptions C14_any_schedule_equals_model.
+
+(* canonical versions that compare equal are the same string *)
+Theorem C14_compare_eq_canonical : forall v w,
+  is_canon v = true -> is_canon w = true -> compare v w = Eq -> v = w.
+Proof. exact compare_eq_canonical. Qed.
+Print Assumptions C14_compare_eq_canonical.
+
+(* the comparison buildList derives from Versions.Max is a total order on the versions a
+   requirement graph carries (canonical versions, "none" as bottom, "" as top) ... *)
+Theorem C14_version_order_total : total_cmp ver_cmp.
+Proof. exact ver_cmp_total. Qed.
+Print Assumptions C14_version_order_total.
+
+(* ... so the MVS theorems hold for the real version order: schedule independence and
+   exact maximality for graphs over module paths (strings) and such versions *)
+Theorem C14_semver_schedule_independent : forall (reqs : node str ver -> list (node str ver)) targets ls1 ls2 s1 s2,
+  run str ver (list_eq_dec N.eq_dec) ver_eq_dec ver_cmp ver_none reqs
+      (init str ver (list_eq_dec N.eq_dec) ver_eq_dec ver_cmp ver_none targets) ls1 = Ok str ver s1 ->
+  MVS.Proofs.complete str ver s1 ->
+  run str ver (list_eq_dec N.eq_dec) ver_eq_dec ver_cmp ver_none reqs
+      (init str ver (list_eq_dec N.eq_dec) ver_eq_dec ver_cmp ver_none targets) ls2 = Ok str ver s2 ->
+  MVS.Proofs.complete str ver s2 ->
+  forall p, g_sel str ver (list_eq_dec N.eq_dec) ver_none (st_g str ver s1) p =
+            g_sel str ver (list_eq_dec N.eq_dec) ver_none (st_g str ver s2) p.
+Proof.
+  exact (fun reqs targets =>
+           schedule_independent str ver (list_eq_dec N.eq_dec) ver_eq_dec ver_cmp ver_none reqs targets
+                                ver_cmp_total ver_none_bottom).
+Qed.
+Print Assumptions C14_semver_schedule_independent.
 
 (* non-vacuity: the hypotheses are met by concrete non-trivial instances *)
 Example C14_example_semver_org_chain :
